@@ -1,0 +1,37 @@
+//go:build verif
+
+// Verification contracts for package cache (comment-only; read by /verif/govc).
+// This file contains no executable code.
+// listLen / listHolds / elemHolds: ghost view of a container/list (length; all element values are non-nil
+// *cacheEntry). repOK is the representation invariant every method may rely on at entry.
+
+package cache
+
+//@ spec func repOK(c *SegmentCache) bool = c.ll != nil && c.items != nil && listHolds(c.ll, "*cacheEntry") && -2305843009213693952 <= c.size && c.size <= 2305843009213693952 && (forall k string :: has(c.items, k) ==> elemHolds(c.items[k], "*cacheEntry"))
+
+//@ func (c *SegmentCache) evictIfNeeded
+//@   requires c.ll != nil && listHolds(c.ll, "*cacheEntry") && c.items != nil
+//@   ensures [C09.evict_until_fit] c.size <= c.capacity || listLen(c.ll) == 0
+//@   ensures [C09.evict_frame] listHolds(c.ll, "*cacheEntry") && c.ll == old(c.ll) && c.items == old(c.items) && c.capacity == old(c.capacity) && listLen(c.ll) <= old(listLen(c.ll))
+//@   ensures [C09.evict_only_when_over] old(c.size) <= old(c.capacity) ==> c.size == old(c.size) && listLen(c.ll) == old(listLen(c.ll))
+//@   loop 1 invariant c.ll == old(c.ll) && c.ll != nil && listHolds(c.ll, "*cacheEntry") && c.items == old(c.items) && c.items != nil && c.capacity == old(c.capacity) && listLen(c.ll) <= old(listLen(c.ll))
+//@   loop 1 invariant old(c.size) <= old(c.capacity) ==> c.size == old(c.size) && listLen(c.ll) == old(listLen(c.ll))
+//@
+//@ func (c *SegmentCache) SetSegment
+//@   requires repOK(c)
+//@   ghost gold []byte = nil
+//@   at append#1 before set gold = entry.data
+//@   at MoveToFront#1 before assert [C09.update_stores_new_bytes] entry.data == data
+//@   at MoveToFront#1 before assert [C09.update_never_overwrites_handed_out_bytes] len(data) == 0 || base(entry.data) != base(gold)
+//@   at MoveToFront#1 before assert [C09.update_size_accounting] c.size == old(c.size) - len(gold) + len(data)
+//@   at PushFront#1 before assert [C09.insert_stores_private_copy] copyData == data && (len(data) == 0 || base(copyData) != base(data))
+//@   at evictIfNeeded#2 before assert [C09.insert_size_accounting] c.size == old(c.size) + len(data)
+//@   ensures [C09.capacity_respected] c.size <= c.capacity || listLen(c.ll) == 0
+//@
+//@ func (c *SegmentCache) GetSegment
+//@   requires repOK(c)
+//@   ghost ghit []byte = nil
+//@   at MoveToFront#1 before set ghit = as(elem.Value, "*cacheEntry").data
+//@   ensures [C09.get_returns_entry_bytes] result1 ==> sameSlice(result0, ghit)
+//@   ensures [C09.get_changes_nothing] c.size == old(c.size) && listLen(c.ll) == old(listLen(c.ll))
+//@   ensures [C09.miss_returns_nil] !result1 ==> len(result0) == 0
